@@ -500,6 +500,115 @@ func registerSync(e *Engine) {
 			return eq, true
 		})
 	}
+	// untyped pointer atomics and atomic.Pointer[T]
+	anyT := types.Typ[types.Uintptr]
+	I["sync/atomic.LoadPointer"] = visible(func(e *Engine, st *State, th *Thread, args []Value, call *ssa.CallCommon) (Value, bool) {
+		return e.load(st, args[0].(Ptr), anyT), true
+	})
+	I["sync/atomic.StorePointer"] = visible(func(e *Engine, st *State, th *Thread, args []Value, call *ssa.CallCommon) (Value, bool) {
+		e.store(st, args[0].(Ptr), anyT, args[1])
+		e.wake(st)
+		return nil, true
+	})
+	I["sync/atomic.SwapPointer"] = visible(func(e *Engine, st *State, th *Thread, args []Value, call *ssa.CallCommon) (Value, bool) {
+		old := e.load(st, args[0].(Ptr), anyT)
+		e.store(st, args[0].(Ptr), anyT, args[1])
+		e.wake(st)
+		return old, true
+	})
+	I["sync/atomic.CompareAndSwapPointer"] = visible(func(e *Engine, st *State, th *Thread, args []Value, call *ssa.CallCommon) (Value, bool) {
+		p := args[0].(Ptr)
+		old := e.load(st, p, anyT).(Ptr)
+		eq := e.ptrEq(old, args[1].(Ptr))
+		if !eq.IsConst() {
+			e.unsupported("CompareAndSwapPointer with symbolic pointer equality")
+		}
+		if eq.IsTrue() {
+			e.store(st, p, anyT, args[2])
+			e.wake(st)
+		}
+		return eq, true
+	})
+	ptrCell := func(p Ptr) Ptr {
+		// atomic.Pointer[T] is struct{_ [0]*T; _ noCopy; v unsafe.Pointer}: the only cell is v
+		return Ptr{Obj: p.Obj, Off: p.Off}
+	}
+	I["(*sync/atomic.Pointer[T]).Load"] = visible(func(e *Engine, st *State, th *Thread, args []Value, call *ssa.CallCommon) (Value, bool) {
+		return e.load(st, ptrCell(args[0].(Ptr)), anyT), true
+	})
+	I["(*sync/atomic.Pointer[T]).Store"] = visible(func(e *Engine, st *State, th *Thread, args []Value, call *ssa.CallCommon) (Value, bool) {
+		e.store(st, ptrCell(args[0].(Ptr)), anyT, args[1])
+		e.wake(st)
+		return nil, true
+	})
+	I["(*sync/atomic.Pointer[T]).Swap"] = visible(func(e *Engine, st *State, th *Thread, args []Value, call *ssa.CallCommon) (Value, bool) {
+		old := e.load(st, ptrCell(args[0].(Ptr)), anyT)
+		e.store(st, ptrCell(args[0].(Ptr)), anyT, args[1])
+		e.wake(st)
+		return old, true
+	})
+	I["(*sync/atomic.Pointer[T]).CompareAndSwap"] = visible(func(e *Engine, st *State, th *Thread, args []Value, call *ssa.CallCommon) (Value, bool) {
+		p := ptrCell(args[0].(Ptr))
+		old := e.load(st, p, anyT).(Ptr)
+		eq := e.ptrEq(old, args[1].(Ptr))
+		if !eq.IsConst() {
+			e.unsupported("atomic.Pointer CAS with symbolic pointer equality")
+		}
+		if eq.IsTrue() {
+			e.store(st, p, anyT, args[2])
+			e.wake(st)
+		}
+		return eq, true
+	})
+	// sync.Map: backed by an engine map kept in the `dirty` field (keys and values are interface values)
+	smap := func() types.Type { return e.lookupType("sync", "Map") }
+	anyIface := types.NewInterfaceType(nil, nil)
+	backing := func(st *State, p Ptr) MapV {
+		e.nilCheck(st, p, "sync.Map")
+		dp := e.fieldCell(p, smap(), "dirty")
+		m, _ := e.obj(st, dp.Obj).Cells[dp.Off].(MapV)
+		if m.Obj == 0 {
+			id, _ := e.newObj(st, ObjMap, nil)
+			m = MapV{id}
+			e.setCell(st, dp, m)
+		}
+		return m
+	}
+	I["(*sync.Map).Load"] = visible(func(e *Engine, st *State, th *Thread, args []Value, call *ssa.CallCommon) (Value, bool) {
+		m := backing(st, args[0].(Ptr))
+		i := e.mapFind(st, m, args[1], anyIface)
+		if i < 0 {
+			return Tuple{[]Value{Iface{}, c.False}}, true
+		}
+		return Tuple{[]Value{e.obj(st, m.Obj).Ent[i].V, c.True}}, true
+	})
+	I["(*sync.Map).Store"] = visible(func(e *Engine, st *State, th *Thread, args []Value, call *ssa.CallCommon) (Value, bool) {
+		e.mapUpdate(st, backing(st, args[0].(Ptr)), args[1], args[2], anyIface)
+		return nil, true
+	})
+	I["(*sync.Map).LoadOrStore"] = visible(func(e *Engine, st *State, th *Thread, args []Value, call *ssa.CallCommon) (Value, bool) {
+		m := backing(st, args[0].(Ptr))
+		i := e.mapFind(st, m, args[1], anyIface)
+		if i >= 0 {
+			return Tuple{[]Value{e.obj(st, m.Obj).Ent[i].V, c.True}}, true
+		}
+		e.mapUpdate(st, m, args[1], args[2], anyIface)
+		return Tuple{[]Value{args[2], c.False}}, true
+	})
+	I["(*sync.Map).Delete"] = visible(func(e *Engine, st *State, th *Thread, args []Value, call *ssa.CallCommon) (Value, bool) {
+		e.mapDelete(st, backing(st, args[0].(Ptr)), args[1], anyIface)
+		return nil, true
+	})
+	I["(*sync.Map).LoadAndDelete"] = visible(func(e *Engine, st *State, th *Thread, args []Value, call *ssa.CallCommon) (Value, bool) {
+		m := backing(st, args[0].(Ptr))
+		i := e.mapFind(st, m, args[1], anyIface)
+		if i < 0 {
+			return Tuple{[]Value{Iface{}, c.False}}, true
+		}
+		v := e.obj(st, m.Obj).Ent[i].V
+		e.mapDelete(st, m, args[1], anyIface)
+		return Tuple{[]Value{v, c.True}}, true
+	})
 	// atomic.Value: v any stored in the single cell
 	I["(*sync/atomic.Value).Load"] = visible(func(e *Engine, st *State, th *Thread, args []Value, call *ssa.CallCommon) (Value, bool) {
 		p := args[0].(Ptr)
@@ -594,10 +703,21 @@ func registerLib(e *Engine) {
 		"internal/race.Read", "internal/race.Write", "internal/race.ReadRange", "internal/race.WriteRange", "runtime.SetFinalizer"} {
 		I[n] = func(e *Engine, st *State, th *Thread, args []Value, call *ssa.CallCommon) (Value, bool) { return nil, true }
 	}
+	// dialing: refused unless a harness replaces it (nd.Replace) with its own double
+	dialFail := func(e *Engine, st *State, th *Thread, args []Value, call *ssa.CallCommon) (Value, bool) {
+		et := e.lookupType("errors", "errorString")
+		p := e.allocMem(st, et)
+		e.setCell(st, p, Str{IsConst: true, S: "dial: connection refused (vf stub)"})
+		return Tuple{[]Value{Iface{}, Iface{T: types.NewPointer(et), V: p}}}, true
+	}
+	I["net.DialTimeout"] = dialFail
+	I["net.Dial"] = dialFail
 	I["os.Getpid"] = func(e *Engine, st *State, th *Thread, args []Value, call *ssa.CallCommon) (Value, bool) {
 		return e.i64(4242), true
 	}
 	I["syscall.Getpid"] = I["os.Getpid"]
+	I["os.Getegid"] = I["os.Getpid"]
+	I["os.Getuid"] = I["os.Getpid"]
 	I["math.Float64bits"] = func(e *Engine, st *State, th *Thread, args []Value, call *ssa.CallCommon) (Value, bool) {
 		e.unsupported("math.Float64bits")
 		return nil, true
